@@ -18,17 +18,19 @@ def Fl(v):
 _vec_cache = {}
 
 
-def make_vector(data, kind='output', complex_step=False):
+def make_vector(data, kind='output', complex_step=False, complex_alloc=False):
     """A real DefaultVector (root, nonlinear) over a copy of `data`, from a minimal Problem."""
     import numpy as np
     import openmdao.api as om
     n = len(data)
     p = om.Problem()
     p.model.add_subsystem('c', om.IndepVarComp('x', np.zeros(max(n, 0))), promotes=['*'])
-    p.setup(force_alloc_complex=complex_step)
+    p.setup(force_alloc_complex=complex_step or complex_alloc)
     p.final_setup()
     vec = p.model._vectors[kind]['nonlinear']
     vec._data[:] = data
+    if complex_step:
+        vec.set_complex_step_mode(True)
     vec._keepalive = p
     return vec
 
@@ -56,3 +58,7 @@ def make_ls_solver(cls_name, u, du, has_bounds, lower, upper, method, alpha=None
     ls._upper_bounds = None if upper is None else np.array(upper, dtype=float)
     ls._keepalive = p
     return ls
+
+
+def Cpx(v):
+    return complex(v)
